@@ -98,13 +98,24 @@ def _check_config(sym, cfg, where):
     sym.check(type(cfg["c"]) is str and cfg["c"] in ("x", "y"), "C06.value-type-or-range", "c=%r" % (cfg["c"],))
 
 
-def h_scheduler(sym, kind="fifo-random", P=2, N=7, seed=3):
+RC = [{"a": 2, "c": "x"}, {"a": 1, "c": "y"}, {"a": 3, "c": "x"}, {"a": 3, "c": "y"}]     # restrict_configurations (4 of the 6)
+
+
+def h_scheduler(sym, kind="fifo-random", P=2, N=7, seed=3, restrict=False):
     """finite space of 6 configurations; N suggest calls with symbolic results / failures in between"""
     from syne_tune.optimizer.schedulers.fifo import FIFOScheduler
     pts = _p2e(sym, P)
     ref = _ref_impute(pts)
     cs = _space()
-    if kind == "fifo-random":
+    size = 6
+    if restrict:
+        # documented: only the listed configurations may be suggested; initial points that are not listed are dropped, the
+        # others keep their order
+        ref = [c for c in ref if c in RC]
+        size = len(RC)
+        sch = make(FIFOScheduler, cs, searcher="random", metric="m", mode="min", random_seed=seed, points_to_evaluate=pts,
+                   search_options={"restrict_configurations": [dict(c) for c in RC]})
+    elif kind == "fifo-random":
         sch = make(FIFOScheduler, cs, searcher="random", metric="m", mode="min", random_seed=seed, points_to_evaluate=pts)
     elif kind == "fifo-grid":
         sch = make(FIFOScheduler, cs, searcher="grid", metric="m", mode="min", random_seed=seed, points_to_evaluate=pts)
@@ -121,12 +132,14 @@ def h_scheduler(sym, kind="fifo-random", P=2, N=7, seed=3):
         s = sch.suggest(i)
         if s is None:
             none_seen = True
-            sym.check(len(seen) == 6, "C06.nothing-left-too-early", "suggest returned None after %d of 6 configurations" % len(seen))
+            sym.check(len(seen) == size, "C06.nothing-left-too-early", "suggest returned None after %d of %d configurations" % (len(seen), size))
             sym.goal("exhausted")
             break
         cfg = s.config
         _check_config(sym, cfg, "suggestion %d" % i)
         core = {"a": cfg["a"], "c": cfg["c"]}
+        if restrict:
+            sym.check(core in RC, "C06.not-in-restrict-configurations", "suggestion %d = %s is not among the listed configurations" % (i, core))
         if i < len(ref):
             sym.check(core == ref[i], "C06.initial-points-order", "suggestion %d is %s, initial point %d is %s" % (i, core, i, ref[i]))
             sym.goal("initial-point")
@@ -215,6 +228,9 @@ def obligations(tier):
                           bounds=dict(space="6 configurations", points_to_evaluate=2, suggest_calls=7, events="complete/fail/pending after each start"),
                           goals=("initial-point", "failure", "end") + (("exhausted",) if kind != "fifo-bo" else ()) + (("grid-complete",) if kind == "fifo-grid" else ()),
                           split=(("pa0", (0, 1, 2, 3)), ("pc0", (0, 1, 2))), budget_s=1500))
+    obs.append(Ob("C06.b[fifo-random,restrict_configurations,seed=3]", "props.c06:h_scheduler", dict(kind="fifo-random", P=2, N=6, seed=3, restrict=True),
+                  bounds=dict(space="6 configurations, 4 listed in restrict_configurations", points_to_evaluate=2, suggest_calls=6), goals=("initial-point", "failure", "exhausted", "end"),
+                  split=(("pa0", (0, 1, 2, 3)), ("pc0", (0, 1, 2))), budget_s=1500))
     for dom in ("uniform", "randint", "randint-single", "choice", "finrange", "finrange-int", "loguniform"):
         obs.append(Ob("C06.c[pbt-explore,%s]" % dom, "props.c06:h_pbt_explore", dict(domain=dom),
                       bounds=dict(parent="symbolic member of the domain", random_stream="symbolic (every draw)", domain=dom),
